@@ -143,6 +143,13 @@ func (ex *Exec) callCommon(st *State, instr ssa.CallInstruction, c *ssa.CallComm
 	}
 	con := ex.P.Contracts[key]
 	var results []string
+	if key == "sort.Slice" && !ex.pureMode {
+		if ex.sortSlice(st, c, rec) {
+			rec.post = st.clone()
+			rec.factIx = len(g.facts)
+			return nil
+		}
+	}
 	switch {
 	case con != nil && con.Pure && sfn != nil:
 		results = []string{ex.applyPure(st, sfn, con, args)}
@@ -368,4 +375,60 @@ func (ex *Exec) copyOp(st *State, c *ssa.CallCommon) string {
 		na, d, d, n, d, srcRead, oldArr, na))
 	g.set(st, comp, fmt.Sprintf("(ite (= %s 0) %s (store %s (s.arr %s) %s))", n, old, old, d, na))
 	return ex.fromMathInt(n)
+}
+
+
+// sortSlice: built-in (trusted) semantics of sort.Slice(x, less) when x is a slice boxed at the call
+// site and less is a closure literal that is a pure function of the heap:
+//   obligations: less is a strict weak order on the indices of x (irreflexive, transitive, negatively transitive);
+//   effect: the elements of x are permuted (bijection pi), positions outside x are unchanged, and the
+//   result is sorted: for i<j not less(j,i).
+func (ex *Exec) sortSlice(st *State, c *ssa.CallCommon, rec *callRec) bool {
+	g := ex.g
+	mi, ok := c.Args[0].(*ssa.MakeInterface)
+	if !ok {
+		return false
+	}
+	sl, ok := mi.X.Type().Underlying().(*types.Slice)
+	if !ok {
+		return false
+	}
+	mc, ok := ex.closures[c.Args[1]]
+	if !ok {
+		return false
+	}
+	cfn := mc.Fn.(*ssa.Function)
+	var binds []string
+	for _, b := range mc.Bindings {
+		binds = append(binds, ex.val(b))
+	}
+	s := ex.val(mi.X)
+	less := func(state *State, i, j string) (r string) {
+		return ex.applyPureClosure(state, cfn, binds, []string{i, j})
+	}
+	inr := func(v string) string { return fmt.Sprintf("(and (<= 0 %s) (< %s (s.len %s)))", v, v, s) }
+	pre := st.clone()
+	lbl := fmt.Sprintf("pre@sort.Slice#%d", rec.ord)
+	ex.addObl(lbl, "less-irreflexive", fmt.Sprintf("(forall ((i Int)) (=> %s (not %s)))", inr("i"), less(pre, "i", "i")), ex.pcCur, "sort.Slice: less must be a strict weak order", "")
+	ex.addObl(lbl, "less-transitive", fmt.Sprintf("(forall ((i Int) (j Int) (k Int)) (=> (and %s %s %s %s %s) %s))", inr("i"), inr("j"), inr("k"), less(pre, "i", "j"), less(pre, "j", "k"), less(pre, "i", "k")), ex.pcCur, "sort.Slice: less must be a strict weak order", "")
+	ex.addObl(lbl, "less-negtransitive", fmt.Sprintf("(forall ((i Int) (j Int) (k Int)) (=> (and %s %s %s (not %s) (not %s)) (not %s)))", inr("i"), inr("j"), inr("k"), less(pre, "i", "j"), less(pre, "j", "k"), less(pre, "i", "k")), ex.pcCur, "sort.Slice: less must be a strict weak order", "")
+	comp := g.arrComp(sl.Elem())
+	old := g.get(st, comp)
+	es := g.sortOf(sl.Elem())
+	na := g.freshConst("sort.arr", fmt.Sprintf("(Array Int %s)", es))
+	g.nfresh++
+	pi := fmt.Sprintf("|sort.pi!%d|", g.nfresh)
+	pinv := fmt.Sprintf("|sort.pinv!%d|", g.nfresh)
+	g.decls = append(g.decls, fmt.Sprintf("(declare-fun %s (Int) Int)", pi), fmt.Sprintf("(declare-fun %s (Int) Int)", pinv))
+	oldArr := fmt.Sprintf("(select %s (s.arr %s))", old, s)
+	pc := ex.pcCur
+	g.assume(pc, fmt.Sprintf("(forall ((p Int)) (! (=> (or (< p (s.off %s)) (>= p (+ (s.off %s) (s.len %s)))) (= (select %s p) (select %s p))) :pattern ((select %s p))))", s, s, s, na, oldArr, na))
+	g.assume(pc, fmt.Sprintf("(forall ((i Int)) (! (=> %s (and %s (= (select %s (sl.ix %s i)) (select %s (sl.ix %s (%s i)))) (= (%s (%s i)) i))) :pattern ((select %s (sl.ix %s i))) :pattern ((%s i))))",
+		inr("i"), inr("("+pi+" i)"), na, s, oldArr, s, pi, pinv, pi, na, s, pi))
+	g.assume(pc, fmt.Sprintf("(forall ((i Int)) (! (=> %s (and %s (= (select %s (sl.ix %s i)) (select %s (sl.ix %s (%s i)))) (= (%s (%s i)) i))) :pattern ((select %s (sl.ix %s i))) :pattern ((%s i))))",
+		inr("i"), inr("("+pinv+" i)"), oldArr, s, na, s, pinv, pi, pinv, oldArr, s, pinv))
+	g.set(st, comp, fmt.Sprintf("(ite (= (s.len %s) 0) %s (store %s (s.arr %s) %s))", s, old, old, s, na))
+	g.assume(pc, fmt.Sprintf("(forall ((i Int) (j Int)) (! (=> (and (<= 0 i) (< i j) (< j (s.len %s))) (not %s)) :pattern ((select %s (sl.ix %s i)) (select %s (sl.ix %s j)))))", s, less(st, "j", "i"), na, s, na, s))
+	g.note("trusted built-in semantics of sort.Slice: permutation of the slice elements, sorted w.r.t. less, given that less is a strict weak order (proved as pre@sort.Slice obligations)")
+	return true
 }
